@@ -553,4 +553,176 @@ theorem src_setup_eq_model (cfg : Cfg) (pf : Option Unit) (plan : Plan) (m : M) 
        all_goals (simp [TiePost, finishMethod, Blk.result, SameCfg, liftR, hd, ho, hop, hpp, Exc.osError])
        all_goals first | exact h3 | exact ⟨h3, h4 trivial rfl⟩)
 
+/-! ## `__exit__` -/
+
+/-- what `__exit__` does with the outcome `o` the model computes: when the block raised it returns normally (None:
+    the block's exception goes on), otherwise it raises the error of the failed step -/
+def exitResult (bexc : Option Outcome) (o : Outcome) : Except Exc Unit :=
+  match bexc with
+  | some _ => .ok ()
+  | none =>
+    match o with
+    | .osErr e => .error (excOf e)
+    | _ => .ok ()
+
+def TieExit (cfg : Cfg) (bexc : Option Outcome) (r : Outcome × M)
+    (res : Except Exc Unit × AtomicSaver.St Role Unit Unit Unit Unit × M) : Prop :=
+  res.1 = exitResult bexc r.1 ∧ res.2.2 = erase r.2 ∧ SameCfg cfg res.2.1
+
+set_option maxHeartbeats 1000000 in
+/-- **`AtomicSaver.__exit__`** as regenerated from the source = the model's `finishG`: `flush()`, `os.fsync(fileno())`,
+    `close()` in the `finally` clause (an exception of `close()` replaces an earlier one), then `atomic_rename` when the
+    block did not raise; on any `Exception` of these steps `_rm_part_on_exc()` and either a normal return (the block's
+    exception goes on, unmasked) or the re-raise; `_rm_part_on_exc()` when only the block raised.  For every block
+    outcome `bexc`, every plan, every state: same result, same world, same object. -/
+theorem src_exit_eq_model (cfg : Cfg) (plan : Plan) (m : M) (bexc : Option Outcome) (ev et : Option Unit) :
+    TieExit cfg bexc (finishG cfg plan m bexc)
+      (AtomicSaver.exit (msys plan) (conc cfg (some ())) (bexc.map fun _ => ()) ev et (erase m)) := by
+  cases bexc <;> cases hov : cfg.overwrite <;>
+  simp only [finishG, syncCloseG, publish_eq_atomicRenameM, atomicRenameM, hov, Option.map]
+  all_goals tie_eval [AtomicSaver.exit, AtomicSaver.exit.body, unwrap, excOf_isException, rmPart_eq, src_rm_part_raw, atomicRenameM, hov]
+  all_goals (simp [TieExit, exitResult, finishMethod, Blk.result, SameCfg, liftR, hov])
+
+/-! ## `__enter__` -/
+
+def TieEnter (cfg : Cfg) (r : Option Errno × M)
+    (res : Except Exc (Option Unit) × AtomicSaver.St Role Unit Unit Unit Unit × M) : Prop :=
+  res.1 = (match r.1 with | some e => .error (excOf e) | none => .ok (some ())) ∧ res.2.2 = erase r.2 ∧
+    SameCfg cfg res.2.1 ∧ (r.1 = none → res.2.1.part_file = some ())
+
+/-- **`AtomicSaver.__enter__`** = `setup()`; the value handed to the `with` block is the part file object -/
+theorem src_enter_eq_model (cfg : Cfg) (pf : Option Unit) (plan : Plan) (m : M) (hm : ModesOk m.fs) :
+    TieEnter cfg (setup cfg plan m) (AtomicSaver.enter (msys plan) (conc cfg pf) (erase m)) := by
+  have hk := src_setup_eq_model cfg pf plan m hm
+  blk_eval [AtomicSaver.enter, AtomicSaver.enter.body]
+  tie_callee
+  tie_use hk
+  generalize setup cfg plan m = tie_m at *
+  rcases tie_m with ⟨_ | _, _⟩ <;> blk_eval [] <;> simp [TieEnter, finishMethod, Blk.result, SameCfg, liftR]
+  · have h5 := h4 trivial rfl
+    exact ⟨h5, h3, h5⟩
+  · exact h3
+
+/-! ## the `with` statement on the generated methods = `runScript` -/
+
+theorem codeOf_excOf (e : Errno) : codeOf (excOf e) = e := by
+  unfold excOf
+  by_cases h1 : e < 1000
+  · simp [h1, codeOf]
+  · by_cases h2 : e = 1000
+    · simp [h2, codeOf]
+    · simp [h1, h2, codeOf]
+
+theorem fcall_congr {plan : Plan} {m m2 : M} (ev : Ev) (h : erase m = erase m2) :
+    (fcall plan m ev).1 = (fcall plan m2 ev).1 ∧ erase (fcall plan m ev).2 = erase (fcall plan m2 ev).2 := by
+  have a := fcall_erase plan m ev; have b := fcall_erase plan m2 ev
+  rw [h] at a; exact ⟨a.1.symm.trans b.1, a.2.symm.trans b.2⟩
+
+theorem fclose_congr {plan : Plan} {m m2 : M} (h : erase m = erase m2) :
+    (fclose plan m).1 = (fclose plan m2).1 ∧ erase (fclose plan m).2 = erase (fclose plan m2).2 := by
+  have a := fclose_erase plan m; have b := fclose_erase plan m2
+  rw [h] at a; exact ⟨a.1.symm.trans b.1, a.2.symm.trans b.2⟩
+
+/-- the block's own calls do not read the ghost counters either -/
+theorem runOps_congr (plan : Plan) (ops : List Op) : ∀ {m m2 : M}, erase m = erase m2 →
+    (runOps plan m ops).1 = (runOps plan m2 ops).1 ∧ erase (runOps plan m ops).2 = erase (runOps plan m2 ops).2 := by
+  induction ops with
+  | nil => intro m m2 h; exact ⟨rfl, h⟩
+  | cons op ops ih =>
+    intro m m2 h
+    cases op with
+    | write d k =>
+      have c := fcall_congr (plan := plan) (.write d k) h
+      simp only [runOps]
+      rcases h1 : fcall plan m (.write d k) with ⟨_ | e, a⟩ <;> rcases h2 : fcall plan m2 (.write d k) with ⟨_ | e2, a2⟩ <;>
+        rw [h1, h2] at c <;> simp only at c ⊢
+      · exact ih c.2
+      · exact absurd c.1 (by simp)
+      · exact absurd c.1 (by simp)
+      · exact c
+    | flush =>
+      have c := fcall_congr (plan := plan) .flush h
+      simp only [runOps]
+      rcases h1 : fcall plan m .flush with ⟨_ | e, a⟩ <;> rcases h2 : fcall plan m2 .flush with ⟨_ | e2, a2⟩ <;>
+        rw [h1, h2] at c <;> simp only at c ⊢
+      · exact ih c.2
+      · exact absurd c.1 (by simp)
+      · exact absurd c.1 (by simp)
+      · exact c
+    | close =>
+      have c := fclose_congr (plan := plan) h
+      simp only [runOps]
+      rcases h1 : fclose plan m with ⟨_ | e, a⟩ <;> rcases h2 : fclose plan m2 with ⟨_ | e2, a2⟩ <;>
+        rw [h1, h2] at c <;> simp only at c ⊢
+      · exact ih c.2
+      · exact absurd c.1 (by simp)
+      · exact absurd c.1 (by simp)
+      · exact c
+
+/-- `with AtomicSaver(dest, **cfg) as f: <script>` - Python's `with` protocol around the GENERATED `__enter__` and
+    `__exit__`: an exception of `__enter__` propagates (no `__exit__`); the block is the script's calls on the file
+    object (they are the test's, not boltons': the model's `runOps`); `__exit__` gets the exception information
+    (`None` three times, or three objects); when it returns (`None`: false) the block's exception, if any, goes on;
+    when it raises, that exception replaces it.  The world starts as `M.start fs envIno`; on a fresh object. -/
+def srcWith (cfg : Cfg) (sc : Script) (plan : Plan) (fs : FS) (envIno : Nat) : Outcome × M :=
+  match AtomicSaver.enter (msys plan) (conc cfg none) (erase (M.start fs envIno)) with
+  | (.error x, _, w1) => (.osErr (codeOf x), w1)
+  | (.ok _, st, w1) =>
+    let blk := runOps plan w1 sc.ops
+    let bexc := scriptOutcome sc blk.1
+    match AtomicSaver.exit (msys plan) st (bexc.map fun _ => ()) (bexc.map fun _ => ()) (bexc.map fun _ => ())
+        (erase blk.2) with
+    | (.error x, _, w3) => (.osErr (codeOf x), w3)
+    | (.ok _, _, w3) => (bexc.getD .ok, w3)
+
+theorem finishG_none_ne_bodyExc (cfg : Cfg) (plan : Plan) (m : M) : (finishG cfg plan m none).1 ≠ .bodyExc := by
+  unfold finishG
+  rcases syncCloseG plan m with ⟨_ | e, m3⟩ <;> simp only [Option.getD]
+  · unfold publish
+    split
+    · rcases call plan m3 .renamePartDest with ⟨_ | e, m4⟩ <;> simp
+    · rcases call plan m3 .linkPartDest with ⟨_ | e, m4⟩ <;> simp only
+      · rcases call plan m4 .unlinkPart with ⟨_ | e, m5⟩ <;> simp
+      · simp
+  · simp
+
+/-- **The source, run under the `with` protocol, IS the transliteration**: for every configuration, with-block script,
+    fault plan (any number of failing calls, any error, the destination appearing before any call) and initial file
+    system with 12-bit permission bits, the generated `__enter__` / `__exit__` (and through them `setup`,
+    `_open_part_file`, `_rm_part_on_exc`, `atomic_rename`, `set_cloexec`) produce the outcome of `runScript` and its
+    machine state - file system, call count, trace of successful events, recorded observations `M.obs`, the
+    environment's flag - up to the two ghost counters. -/
+theorem src_with_eq_runScript (cfg : Cfg) (sc : Script) (plan : Plan) (fs : FS) (e : Nat) (hm : ModesOk fs) :
+    srcWith cfg sc plan fs e = ((runScript cfg sc plan fs e).1, erase (runScript cfg sc plan fs e).2) := by
+  have hk := src_enter_eq_model cfg none plan (M.start fs e) hm
+  unfold srcWith runScript
+  generalize AtomicSaver.enter (msys plan) (conc cfg none) (erase (M.start fs e)) = res at *
+  obtain ⟨r, st, w1⟩ := res
+  simp only [TieEnter, SameCfg] at hk
+  obtain ⟨h1, h2, h3, h4⟩ := hk
+  subst h1 h2
+  rcases hs : setup cfg plan (M.start fs e) with ⟨_ | err, m1⟩ <;> rw [hs] at h4 <;> simp only at h4 ⊢
+  · -- `__enter__` returned: the block, then `__exit__`
+    have hst : st = conc cfg (some ()) := by rw [h3, h4 trivial]
+    subst hst
+    have hops := runOps_congr plan sc.ops (m := erase m1) (m2 := m1) (erase_erase m1)
+    rw [hops.1, hops.2]
+    have hx := src_exit_eq_model cfg plan (runOps plan m1 sc.ops).2 (scriptOutcome sc (runOps plan m1 sc.ops).1)
+      ((scriptOutcome sc (runOps plan m1 sc.ops).1).map fun _ => ()) ((scriptOutcome sc (runOps plan m1 sc.ops).1).map fun _ => ())
+    tie_callee
+    simp only [TieExit] at hx
+    obtain ⟨g1, g2, _⟩ := hx
+    subst g1 g2
+    cases hb : scriptOutcome sc (runOps plan m1 sc.ops).1 with
+    | some b =>
+      simp only [exitResult, Option.getD]
+      rw [exit_never_masks_block_exception]
+    | none =>
+      have hne := finishG_none_ne_bodyExc cfg plan (runOps plan m1 sc.ops).2
+      cases ho : (finishG cfg plan (runOps plan m1 sc.ops).2 none).1 with
+      | ok => simp [exitResult, ho]
+      | bodyExc => exact absurd ho hne
+      | osErr e2 => simp [exitResult, ho, codeOf_excOf]
+  · simp [codeOf_excOf]
+
 end C05
